@@ -148,6 +148,30 @@ def np_mean(I, a, k):
     return ops.binop(I, "/", s, n)
 
 
+def reshaped_view(t: Tensor, shp):
+    """numpy reshape / ravel: a VIEW of the same elements whenever the array is contiguous (one -1 is inferred); for a
+    non-contiguous view numpy copies only when it must -- which of the two happens is not modelled"""
+    shp = tuple(shp) if isinstance(shp, (tuple, list)) else (shp,)
+    if not all(isinstance(x, int) and not isinstance(x, bool) for x in shp):
+        raise Unsupported("reshape to a symbolic shape")
+    if shp.count(-1) == 1:
+        known = 1
+        for x in shp:
+            if x != -1:
+                known *= x
+        if known == 0 or t.size % known:
+            raise PyExc("ValueError", ("cannot reshape array",))
+        shp = tuple(t.size // known if x == -1 else x for x in shp)
+    n = 1
+    for x in shp:
+        n *= x
+    if any(x < 0 for x in shp) or n != t.size:
+        raise PyExc("ValueError", (f"cannot reshape array of size {t.size} into shape {shp}",))
+    if not t.is_contiguous() and t.ndim > 1:
+        raise Unsupported("reshape / ravel of a non-contiguous view (numpy may or may not copy)")
+    return Tensor.view(t, list(range(t.size)), shp)
+
+
 def tensor_getattr(I, t: Tensor, name):
     if name == "T":
         if t.ndim != 2:
@@ -155,7 +179,7 @@ def tensor_getattr(I, t: Tensor, name):
                 return t
             raise Unsupported(".T of rank > 2")
         n, m = t.shape
-        return Tensor((m, n), [t.get((i, j)) for j in range(m) for i in range(n)], t.dtype)
+        return Tensor.view(t, [i * m + j for j in range(m) for i in range(n)], (m, n))        # a view, as in numpy
     if name == "shape":
         return t.shape
     if name == "ndim":
@@ -186,10 +210,12 @@ def tensor_getattr(I, t: Tensor, name):
     if name == "reshape":
         def reshape(I_, a, k):
             shp = a[0] if len(a) == 1 and isinstance(a[0], (tuple, list)) else tuple(a)
-            return Tensor(tuple(shp), list(t.data), t.dtype)
+            return reshaped_view(t, shp)
         return Builtin("ndarray.reshape", reshape)
-    if name in ("ravel", "flatten"):
-        return Builtin("ndarray." + name, lambda I_, a, k: Tensor((t.size,), list(t.data), t.dtype))
+    if name == "ravel":
+        return Builtin("ndarray.ravel", lambda I_, a, k: reshaped_view(t, (t.size,)))
+    if name == "flatten":
+        return Builtin("ndarray.flatten", lambda I_, a, k: Tensor((t.size,), list(t.data), t.dtype))        # always a copy
     if name == "all":
         def all_(I_, a, k):
             if k or a:
@@ -483,7 +509,21 @@ def make_numpy(extra=None):
             return Tensor(t.shape, [ops.compare(I, "NotEq", e, 0) for e in t.data], "bool")
         if src == "int" and kind == "float":
             return Tensor(t.shape, list(t.data), "float")
+        if src == "float" and kind == "int" and all(isinstance(e, int) or (isinstance(e, Fraction) and e.denominator == 1) or (isinstance(e, Sym) and e.kind == "int") for e in t.data):
+            return Tensor(t.shape, [int(e) if isinstance(e, Fraction) else e for e in t.data], "int")        # integral values: no truncation involved
         raise Unsupported(f"array conversion {src} -> {kind}")
+
+    def from_python(I, x):
+        """array of a (nested) list / scalar with the element type numpy infers: all booleans -> bool, all integers (and
+        booleans) -> int, else float"""
+        t = as_tensor(I, x)
+        kinds = {kind_of(e) for e in t.data}
+        if kinds and kinds <= {"bool"}:
+            t.dtype = "bool"
+        elif kinds and kinds <= {"bool", "int"}:
+            t = Tensor(t.shape, [(1 if e else 0) if isinstance(e, bool) else (mk(z3.If(e.t, z3.IntVal(1), z3.IntVal(0))) if isinstance(e, Sym) and e.kind == "bool" else e)
+                                 for e in t.data], "int")
+        return t
 
     def array(I, a, k):
         x = a[0]
@@ -494,7 +534,7 @@ def make_numpy(extra=None):
             return x.copy()
         if hasattr(x, "np_array"):
             return x.np_array(I, copy=True)
-        return as_tensor(I, x)
+        return cast_tensor(I, from_python(I, x), kind)
     A["array"] = Builtin("np.array", array)
 
     def asarray(I, a, k):
@@ -508,7 +548,7 @@ def make_numpy(extra=None):
             return x.np_array(I, copy=False)
         if x is None:
             return NONE_ARRAY
-        return as_tensor(I, x)
+        return cast_tensor(I, from_python(I, x), kind)
     A["asarray"] = Builtin("np.asarray", asarray)
 
     def column_stack(I, a, k):
@@ -766,7 +806,7 @@ def make_numpy(extra=None):
     _set("square", lambda I, a, k: ops.binop(I, "*", a[0], a[0]) if not k else (_ for _ in ()).throw(Unsupported("np.square kwargs")))
     _set("copy", lambda I, a, k: as_tensor(I, a[0]).copy() if not k else (_ for _ in ()).throw(Unsupported("np.copy kwargs")))
     _set("transpose", lambda I, a, k: tensor_getattr(I, as_tensor(I, a[0]), "T") if not k and len(a) == 1 else (_ for _ in ()).throw(Unsupported("np.transpose with axes")))
-    _set("ravel", lambda I, a, k: Tensor((as_tensor(I, a[0]).size,), list(as_tensor(I, a[0]).data), as_tensor(I, a[0]).dtype) if not k else (_ for _ in ()).throw(Unsupported("np.ravel kwargs")))
+    _set("ravel", lambda I, a, k: reshaped_view(as_tensor(I, a[0]), (as_tensor(I, a[0]).size,)) if not k else (_ for _ in ()).throw(Unsupported("np.ravel kwargs")))
     _set("identity", lambda I, a, k: Tensor((a[0], a[0]), [1 if i == j else 0 for i in range(a[0]) for j in range(a[0])]) if not k and isinstance(a[0], int) else (_ for _ in ()).throw(Unsupported("np.identity")))
 
     def zeros_like(I, a, k):
@@ -854,14 +894,9 @@ def make_numpy(extra=None):
     def reshape(I, a, k):
         t = as_tensor(I, a[0])
         shp = a[1] if isinstance(a[1], (tuple, list)) else (a[1],)
-        if k or not all(isinstance(x, int) and x >= 0 for x in shp):
+        if k:
             raise Unsupported("np.reshape of this form")
-        n = 1
-        for x in shp:
-            n *= x
-        if n != t.size:
-            raise PyExc("ValueError", ("cannot reshape array",))
-        return Tensor(tuple(shp), list(t.data), t.dtype)
+        return reshaped_view(t, shp)
     _set("reshape", reshape)
 
     if extra:
